@@ -57,7 +57,6 @@ impl SrtlaRegistrationManager {
         ensures final(self).same_handshake(old(self)),
     { unimplemented!() }
 }
-pub const CLOCK_MAX: u64 = 0x4000_0000_0000_0000;
 '''
 
 NOW = 'now < CLOCK_MAX'
